@@ -143,11 +143,19 @@ type E2E struct {
 	// HookDelayUs > 0 installs hook H1 (transport.gotConn) sleeping up to that
 	// many microseconds between obtaining a pooled connection and using it
 	HookDelayUs int
-	virtual     bool
+	// Teardown (profile "order" only): the client closes each connection
+	// while its pipelined calls are still queued or executing on the server;
+	// only what the server does with the requests it has received is judged
+	Teardown bool
+	virtual  bool
 }
 
 func (p E2E) String() string {
-	return fmt.Sprintf("%s %s conns=%d callers=%d ops=%d streams=%d via=%s", p.Profile, p.Cfg, p.Conns, p.Callers, p.NOps, p.Streams, p.Via)
+	s := fmt.Sprintf("%s %s conns=%d callers=%d ops=%d streams=%d via=%s", p.Profile, p.Cfg, p.Conns, p.Callers, p.NOps, p.Streams, p.Via)
+	if p.Teardown {
+		s += " teardown"
+	}
+	return s
 }
 
 type e2eConn struct {
@@ -579,7 +587,7 @@ func RunE2EOn(env Env, p E2E, start func(cfg rig.Config, seed int64) (*rig.Rig, 
 			wg.Add(1)
 			go func() {
 				defer wg.Done()
-				c.runOrdered(p)
+				c.runOrdered(p, r)
 			}()
 		} else {
 			for k := range c.ops {
@@ -743,13 +751,53 @@ func RunE2EOn(env Env, p E2E, start func(cfg rig.Config, seed int64) (*rig.Rig, 
 		out.Sig = "unfinished"
 		return out
 	}
+	if p.Teardown {
+		judgeTeardown(out, p, r, env)
+		return out
+	}
 	judgeE2E(out, p, r, conns, all, allStreams)
 	return out
 }
 
+// judgeTeardown judges a scenario whose connections were closed by the client
+// in mid-flight: the calls themselves end as they may (C03 judges that
+// elsewhere); what the pipelining server did with the requests it had received
+// must still be one at a time, in the order sent, and at most once each.
+func judgeTeardown(out *Outcome, p E2E, r *rig.Rig, env Env) {
+	cfgs := p.Cfg.String() + " teardown"
+	if u, s := r.Ledger.Running(); u > 0 || s > 0 {
+		out.Inconclusive = fmt.Sprintf("%d handlers still running after the connections and the server were closed (%s)", u+s, cfgs)
+		return
+	}
+	execs, _, overlaps := r.Ledger.Snapshot()
+	if len(overlaps) > 0 {
+		out.add("C05", "C05/e2e/teardown-overlap", fmt.Sprintf("pipelining server ran two handlers of one connection at the same time while the connection was going down (%d overlaps, first at id %s) (%s)", len(overlaps), overlaps[0], cfgs), nil)
+	}
+	last := map[uint32]int64{}
+	cnt := map[string]int{}
+	for _, e := range execs {
+		if !e.Known {
+			continue
+		}
+		cnt[e.ID]++
+		if cnt[e.ID] == 2 {
+			out.add("C04", "C04/e2e/teardown-executed-twice", fmt.Sprintf("request %s was executed twice while its connection was going down (%s)", e.ID, cfgs), nil)
+		}
+		if prev, ok := last[e.Spec.Conn]; ok && int64(e.Spec.Counter) < prev {
+			out.add("C05", "C05/e2e/teardown-exec-order", fmt.Sprintf("pipelining server executed request %d of connection %d after request %d while the connection was going down (%s)", e.Spec.Counter, e.Spec.Conn, prev, cfgs), nil)
+			break
+		}
+		last[e.Spec.Conn] = int64(e.Spec.Counter)
+	}
+	out.stat("teardown_scenarios", 1)
+	out.stat("teardown_executions", int64(len(execs)))
+	out.Sig = cfgs + "/order/" + svc.SumHex([]byte(fmt.Sprint(len(execs), p.Run)))
+	out.Nontrivial = len(execs) > 0
+}
+
 // runOrdered issues every op of the connection's single caller with Go on one
 // shared Done channel and records the arrival order (C05).
-func (c *e2eConn) runOrdered(p E2E) {
+func (c *e2eConn) runOrdered(p E2E, r *rig.Rig) {
 	ops := c.ops[0]
 	done := make(chan *rpc.Call, len(ops)+8)
 	codec := p.Cfg.Codec
@@ -811,6 +859,18 @@ func (c *e2eConn) runOrdered(p E2E) {
 		o.Rec.Start = svc.Stamp()
 		o.call = c.caller.Go(method, inObj, outObj, done)
 		byCall[o.call] = o
+	}
+	if p.Teardown && c.conn != nil {
+		// close while requests are queued behind an executing one: wait for
+		// the first handler to be entered, a little longer, then go
+		for i := 0; i < 4000; i++ {
+			if u, _ := r.Ledger.Running(); u > 0 {
+				break
+			}
+			time.Sleep(50 * time.Microsecond)
+		}
+		time.Sleep(time.Duration(rand.New(rand.NewSource(p.Seed+int64(c.idx))).Intn(1500)) * time.Microsecond)
+		c.conn.Close()
 	}
 	for n := 0; n < len(ops); n++ {
 		call := <-done
